@@ -93,7 +93,7 @@ Tags(S, o, a) ==
    \cup (IF k = "rmsg" /\ delivered /\ NSubs(S, t) = 0 /\ NRel(S, t) > 0 THEN {IF a.snd # {} THEN "relayOnlyForwarded" ELSE "relayOnlyDelivered"} ELSE {})
    \cup (IF k = "rmsg" /\ delivered /\ NSubs(S, t) > 0 /\ a.snd # {} THEN {"subscribedForwarded"} ELSE {})
    \cup (IF k = "rmsg" /\ a.ev # <<>> /\ a.ev[1].k = "Duplicate" THEN {"remoteDuplicate"} ELSE {})
-   \cup (IF k = "rmsg" /\ Len(a.ev) = 2 /\ a.vc = <<>> /\ S.val[t].k = "block" THEN {"throttledAtConc"} ELSE {})
+   \cup (IF k = "rmsg" /\ Len(a.ev) = 2 /\ a.vc = <<>> /\ S.val[t].k = "block" THEN {"throttledAtConc:" \o ToString(S.val[t].conc)} ELSE {})
    \cup (IF k = "rmsg" /\ S.val[t].k = "block" /\ a.vc # <<>> THEN {"parkedBelowConc:" \o ToString(ParkedOf(S, S.val[t].gen))} ELSE {})
    \cup (IF k = "rel" /\ a.res = "ok" THEN {"released"} ELSE {})
    \cup {"vc:" \o a.vc[i].w : i \in DOMAIN a.vc}
